@@ -72,7 +72,7 @@ def write_pretree_lens(bw, rng, newlens, oldlens, first, last):
         elif s==19:
             bw.bits(e,1); c2,l2=pc[z]; bw.bits(c2,l2)
 
-def encode(rng, wbits, total, delta=False, ref=b'', e8=False, reset_interval=0, cuts=None):
+def encode(rng, wbits, total, delta=False, ref=b'', e8=False, reset_interval=0, cuts=None, match_p=0.5, early=False):
     """returns (stream bytes, plaintext before E8 postprocessing is irrelevant: we only diff decoders)"""
     wsize=1<<wbits; nslots=SLOTS[wbits-15]; nmain=256+nslots*8
     bw=BitW(); data=bytearray(); R=[1,1,1]
@@ -106,7 +106,8 @@ def encode(rng, wbits, total, delta=False, ref=b'', e8=False, reset_interval=0, 
             while p<bend:
                 fe=(p//32768+1)*32768; lim=min(bend,fe,total)
                 maxoff=min(p+len(ref) if delta else p-rb, wsize-3)
-                if maxoff>=1 and lim-p>=2 and rng.random()<0.5:
+                if early and p<6: maxoff=min(maxoff+rng.choice([1,2]), wsize-3)     # hostile: a match reaching before the first byte of the stream
+                if maxoff>=1 and lim-p>=2 and rng.random()<match_p:
                     ml=rng.randint(2,min(257,lim-p)) if rng.random()<0.8 else min(257,lim-p)
                     mode=rng.random()
                     if mode<0.25 and r[0]<=maxoff: off=r[0]; slot=0
